@@ -103,6 +103,20 @@ def canon(x):
     return x
 
 
+def uncovered_runs(mask):
+    """[(begin, end)] maximal runs of zero bytes in a bytearray mask."""
+    out = []
+    n = len(mask)
+    i = mask.find(0)
+    while i != -1:
+        j = mask.find(1, i)
+        if j == -1:
+            j = n
+        out.append((i, j))
+        i = mask.find(0, j)
+    return out
+
+
 # ---------------------------------------------------------------------------
 # Coq terms
 # ---------------------------------------------------------------------------
@@ -201,6 +215,7 @@ class Twin(object):
         self.base_data = {}      # (si, sh) -> bytes of the allocated size
         self.writersB = {}       # (si, sh) -> BucketWriter on B
         self.writersA = {}       # (si, sh) -> _HTTPBucketWriter remote ref (adapter path)
+        self.cover = {}          # (si, sh) -> bytearray mask of the positions the direct client has written
         self.patch_log = {}      # (si, sh) -> [(offset, data)] PATCHes that reached the bucket on A
         self.complete = {}       # (si, sh) -> data
         self.slots = {}          # si -> write enabler
@@ -306,6 +321,7 @@ class Twin(object):
                 self.base_data[(si, sh)] = rb(r, min(size, 300)) * (size // min(size, 300) + 1)
                 self.base_data[(si, sh)] = self.base_data[(si, sh)][:size]
                 self.patch_log[(si, sh)] = []
+                self.cover[(si, sh)] = bytearray(size)
             b = ("ok", (set(already), set(writers)))
         self.compare("allocate", {"si": si.hex(), "shares": sorted(shares), "size": size}, a, b)
 
@@ -372,13 +388,43 @@ class Twin(object):
         if in_progress:
             bw = self.writersB[key]
 
+            cover = self.cover[key]
+            flag = []
+
             def w():
-                fin = bw.write(a_, chunk)
+                # the direct client ignores write()'s return value: it closes the bucket itself once IT has
+                # written everything (the harness' own coverage bookkeeping decides, not the server)
+                flag.append(bw.write(a_, chunk))
+                cover[a_:a_ + len(chunk)] = b"\x01" * len(chunk)
+                done = all(cover)
                 req = [(x.start, x.stop) for x in bw.required_ranges().ranges()]
-                if fin:
+                if done:
                     bw.close()
-                return (fin, req)
+                return (done, req)
             b = self.direct(w)
+            if b[0] == "ok":
+                # oracle, independent of both servers: completion exactly when the union of the accepted
+                # chunks covers [0, size); `required` is the complement of that union
+                done = b[1][0]
+                want_req = uncovered_runs(cover)
+                case = {"history": self.hidx, "step": self.step, "op": kind, "args": args,
+                        "written_before": [(o, len(d)) for o, d in self.patch_log.get(key, [])][-12:]}
+                if flag and bool(flag[0]) != done:
+                    self.ctx.oracle_fail("bucketwriter-completion-flag-not-coverage",
+                                         "BucketWriter.write(%d, <%d bytes>) returned finished=%s but the chunks written so far %s [0,%d)"
+                                         % (a_, len(chunk), bool(flag[0]), "cover" if done else "do not cover", size),
+                                         case=case, expected=done, observed=bool(flag[0]))
+                if a[0] == "ok" and bool(a[1][0]) != done:
+                    self.ctx.oracle_fail("http-completion-not-exactly-coverage",
+                                         "PATCH %d..%d of a %d-byte share answered %s but the chunks written so far %s [0,%d): uncovered %s"
+                                         % (a_, a_ + len(chunk), size, "201 (finished, bucket closed)" if a[1][0] else "200 (unfinished)",
+                                            "cover" if done else "do not cover", size, _short(want_req)),
+                                         case=case, expected="finished" if done else "unfinished",
+                                         observed="finished" if a[1][0] else "unfinished")
+                if a[0] == "ok" and a[1][1] is not None and a[1][1] != want_req:
+                    self.ctx.oracle_fail("http-required-ranges-not-complement-of-written",
+                                         "PATCH answered required=%s, the unwritten ranges are %s" % (_short(a[1][1]), _short(want_req)),
+                                         case=case, expected=_short(want_req), observed=_short(a[1][1]))
         else:
             b = ("err", "not-found")
         if in_progress and not self.use_adapter:
@@ -434,6 +480,52 @@ class Twin(object):
                                      expected=_short(sb[0]), observed=_short(sa[0]))
                 # re-synchronise: drop the upload on both sides
                 self.abort_both(key)
+
+    def op_upload_pattern(self):
+        """A fresh share uploaded completely in a chosen chunk ORDER: tail first, middle-to-end before
+        the head, reverse, interleaved, shuffled -- completion must come exactly with the last gap."""
+        r = self.r
+        self.op_allocate_fresh()
+        keys = [k for k in sorted(self.writersB) if not self.patch_log.get(k) and not any(self.cover[k])]
+        if not keys:
+            return
+        key = r.choice(keys)
+        size = self.alloc[key]
+        data = self.base_data[key]
+        if size < 2:
+            return
+        ncuts = min(size - 1, r.choice([1, 2, 3, 4]))
+        cuts = sorted(r.sample(range(1, size), ncuts))
+        bounds = [0] + cuts + [size]
+        chunks = [(bounds[i], bounds[i + 1]) for i in range(len(bounds) - 1)]
+        order = r.choice(["tail-first", "middle-to-end-then-head", "reverse", "head-last-shuffled", "shuffled", "in-order"])
+        if order == "tail-first":
+            chunks = [chunks[-1]] + chunks[:-1]
+        elif order == "middle-to-end-then-head":
+            mid = max(1, len(chunks) // 2)
+            chunks = chunks[mid:] + chunks[:mid]
+        elif order == "reverse":
+            chunks = chunks[::-1]
+        elif order == "head-last-shuffled":
+            rest = chunks[1:]
+            r.shuffle(rest)
+            chunks = rest + chunks[:1]
+        elif order == "shuffled":
+            r.shuffle(chunks)
+        self.ctx.count("upload-order:" + order)
+        for (x, y) in chunks:
+            if key not in self.writersB:
+                break
+            self.do_write(key, x, data[x:y], "write-" + order)
+
+    def op_allocate_fresh(self):
+        """allocate on a new storage index (both servers), small or just over one piece"""
+        saved = self.pick_si
+        self.pick_si = lambda pool=None: self.new_si()
+        try:
+            self.op_allocate()
+        finally:
+            self.pick_si = saved
 
     def op_multi_piece(self):
         """A body of more than one 64 KiB piece whose LAST piece is refused (conflict with
@@ -757,7 +849,7 @@ class Twin(object):
         ops = [(self.op_allocate, 10), (self.op_write, 30), (self.op_abort, 4), (self.op_read, 14), (self.op_list, 3),
                (self.op_lease, 4), (self.op_advance, 2), (self.op_rtw, 14), (self.op_slot_readv, 7), (self.op_mread, 8),
                (self.op_mlist, 2), (self.op_version, 1), (self.op_corrupt, 2),
-               (self.op_multi_piece, 6 if self.big else 0)]
+               (self.op_multi_piece, 6 if self.big else 0), (self.op_upload_pattern, 7)]
         bag = [f for f, w in ops for _ in range(w)]
         self.op_allocate()
         for step in range(nsteps):
